@@ -27,13 +27,13 @@ def _keys(unit, fn, comps):
 
 
 PROP_TIES = {
-    'C02': ['Position.net', 'Position.marketValue'] + _keys('Position', 'transact', _POS_FIELDS_QTY) +
+    'C02': ['Handler.transactPosition', 'Position.net', 'Position.marketValue'] + _keys('Position', 'transact', _POS_FIELDS_QTY) +
            _keys('Position', 'openFrom', _POS_FIELDS_QTY) + _keys('Position', 'updatePrice', ['price']),
     'C03': ['Position.net', 'Position.marketValue', 'Position.avgPrice', 'Position.totalBought', 'Position.totalSold',
             'Position.netTotal', 'Position.commission', 'Position.netInclCommission', 'Position.realised', 'Position.unrealised',
             'Position.totalPnl', 'Position.updatePrice', 'Position.transactBuy', 'Position.transactSell', 'Position.transact',
             'Position.openFrom'],
-    'C15': _keys('Position', 'transact', ['err', 'refusal']) + _keys('Position', 'updatePrice', ['err', 'refusal']) +
+    'C15': ['Handler.transactPosition'] + _keys('Position', 'transact', ['err', 'refusal']) + _keys('Position', 'updatePrice', ['err', 'refusal']) +
            _keys('Portfolio', 'subscribe', ['err', 'refusal']) + _keys('Portfolio', 'withdraw', ['err', 'refusal']) +
            _keys('Portfolio', 'transactAsset', ['err', 'refusal']),
     'C14': ['Session.plan'],
@@ -47,7 +47,7 @@ PROP_TIES = {
     'C08': ['Broker.makeTxn', 'PercentFee.totalCost', 'ZeroFee.totalCost', 'DW.normalise', 'DW.quantity', 'LS.normalise', 'LS.quantity',
             'Position.net', 'Position.marketValue'] + _keys('Position', 'transact', _POS_FIELDS_QTY) + _keys('Position', 'openFrom', _POS_FIELDS_QTY),
 }
-_UNIT_OF = {'Session': 'Plan', 'Universe': 'Kernels', 'Optimiser': 'Kernels', 'Alpha': 'Kernels', 'Portfolio': 'Kernels', 'PercentFee': 'Kernels', 'ZeroFee': 'Kernels', 'DW': 'Kernels', 'LS': 'Kernels', 'Broker': 'Kernels'}
+_UNIT_OF = {'Handler': 'Handler', 'Session': 'Plan', 'Universe': 'Kernels', 'Optimiser': 'Kernels', 'Alpha': 'Kernels', 'Portfolio': 'Kernels', 'PercentFee': 'Kernels', 'ZeroFee': 'Kernels', 'DW': 'Kernels', 'LS': 'Kernels', 'Broker': 'Kernels'}
 
 
 # hand-written corollaries that restate property clauses for the translated source (QsProofs/Tie/Lifted.lean); the module
